@@ -1,17 +1,21 @@
-"""C18 — invalid configurations are rejected up front; accepted ones are valid; the defaults
-filled in by setup_config are a fixed point (restart files re-read unchanged).
+"""C18 — invalid configurations are rejected up front, by whatever route they reach setup_config
+(fresh input file, restart file the program wrote and the user edited, infretis.toml replaced by
+an equal restart.toml); accepted ones are valid; the defaults filled in by setup_config are a
+fixed point (restart files re-read unchanged).
 
-Theorems: coq/theorems/C18.v (model coq/model/ConfigM.v = infretis/setup.py with
-proposed_fixes/C18_check_config.diff applied, lead L8).  Tie: functional lock-step of the real
-`check_config` (configuration dict built directly) and of the real `setup_config` (TOML file
-written to a scratch directory) against the extracted model, exhaustive over a small scope and
-seeded random beyond it.  Oracle: the property's list, written here independently of both the
-code and the model (and cross-checked against the proved-correct `validb` of the model):
-an invalid configuration must end in TOMLConfigError — not in acceptance, not in another
-exception.  The restart fixed point is exercised with the real `REPEX_state.write_toml`.
+Theorems: coq/theorems/C18.v (model coq/model/ConfigM.v = infretis/setup.py: check_config, the
+defaults of setup_config, and the route into setup_config, `setup_from`).  Tie: functional
+lock-step of the real `check_config` (configuration dict built directly) and of the real
+`setup_config` (TOML files written to a scratch directory, all three routes) against the extracted
+model, exhaustive over a small scope and seeded random beyond it.  Oracle: the property's list,
+written here independently of both the code and the model (and cross-checked against the
+proved-correct `validb` of the model): an invalid configuration must end in TOMLConfigError — not
+in acceptance, not in another exception.  The restart fixed point is exercised with the real
+`REPEX_state.write_toml`; the restart route with restart files written by the real write_toml and
+by real runs (py/sysharness.py), each edited in every way of the property's list.
 
-Not covered here: "accepted configurations initialise" needs the system harness
-(py/impl_drivers/system.py); see the uncalled hook `accepted_initialises` below.
+Only lightly covered here: "accepted configurations initialise" (the valid continuation of every
+real run is run on to the end); see the uncalled hook `accepted_initialises` below.
 """
 import importlib.util  # noqa: F401
 import copy
@@ -29,8 +33,8 @@ META = {
     "id": "C18",
     "level": "proof",
     "technique": "Coq theorems over an executable model of check_config/setup_config defaults (decision procedure with explicit Python truthiness and exceptions) + exhaustive small-scope lock-step of the extracted model vs the real check_config / setup_config",
-    "text": "Unbounded theorems (any interface list over Q, worker count, move list, cap, lambda_minus_one, quantis, engine lists and tables): accepted => valid; invalid => configuration error that truthfully names a violated clause, never acceptance, never another exception; no IndexError on any input; exact characterisation of acceptance; the defaults are idempotent. The model is tied to /repo by running it and the real check_config/setup_config on the same configurations (all interface lists up to length 4 over 4 values x workers x move lists x caps x lambda_minus_one x quantis x engines defined/undefined, random engine tables) and by evaluating the property's list directly on the implementation's outcome; the restart fixed point is checked on files written by the real write_toml.",
-    "note": "Trusted: Coq kernel; extraction (ExtrOcamlBasic) + OCaml driver; this harness (generators, encoders, the Python oracle — cross-checked on every case against the model's validb, which is proved equivalent to the Coq predicate valid). 'Leaving a wire-fencing ensemble no room' is read as: some ensemble i < n_ens with move 'wf' has interface_cap <= interfaces[max(i-1,0)] (its region [interface, cap) is empty). Required keys (simulation.interfaces, shooting_moves, tis_set, runner.workers, output.data_dir) are assumed present and of the right type; numbers are ints/dyadic floats so comparisons are exact. accepted_initialises (ensembles/weights/first picks) is NOT checked here (needs the system harness). Observation outside the property's list: quantis together with lambda_minus_one = 0.0 is accepted (0.0 is falsy in 'quantis and lambda_minus_one'); modelled faithfully, not reported.",
+    "text": "Unbounded theorems (any interface list over Q, worker count, move list, cap, lambda_minus_one, quantis, engine lists and tables): accepted => valid; invalid => configuration error that truthfully names a violated clause, never acceptance, never another exception; no IndexError on any input; exact characterisation of acceptance; the defaults are idempotent; and the route is no excuse: for a fresh input file and for a restart file at any step (setup_from, both values of 'has a [current] table') an invalid configuration gets a configuration error and never reaches sampling, a restart that goes on is treated exactly like a fresh start, and no answer (None) is given only for a finished run or a missing stored path. The model is tied to /repo by running it and the real check_config/setup_config on the same configurations (all interface lists up to length 4 over 4 values x workers x move lists x caps x lambda_minus_one x quantis x engines defined/undefined, random engine tables) and by evaluating the property's list directly on the implementation's outcome; the restart fixed point is checked on files written by the real write_toml. Restart route: restart.toml files written by the real write_toml (about 100 accepted random configurations, quick tier) and left behind by 6 real runs of the program on the lattice engine (completed and stopped with jobs in flight) are edited as a user would - every position of every class of the property's list (workers; interfaces swapped / duplicated / reversed / cut to 0 or 1 / one added; shooting moves dropped; cap below, on, between and above every interface, alone and with each ensemble made wire fencing; undefined engine per ensemble, engine table removed; lambda_minus_one on/above lambda_0), harmless edits (more steps only, fewer workers, ...) and random replacements of all validated fields - written back with tomli_w and handed to the real setup_config by each route (restart.toml as input; infretis.toml + equal restart.toml; [current] stripped): an invalid edit must raise TOMLConfigError with the stored paths untouched, the outcome must equal the model's setup_from, and the plain continuation of every real run (steps raised only) must be accepted and run on to the end.",
+    "note": "Trusted: Coq kernel; extraction (ExtrOcamlBasic) + OCaml driver; this harness (generators, encoders, the Python oracle — cross-checked on every case against the model's validb, which is proved equivalent to the Coq predicate valid). 'Leaving a wire-fencing ensemble no room' is read as: some ensemble i < n_ens with move 'wf' has interface_cap <= interfaces[max(i-1,0)] (its region [interface, cap) is empty). Required keys (simulation.interfaces, shooting_moves, tis_set, runner.workers, output.data_dir) are assumed present and of the right type; numbers are ints/dyadic floats so comparisons are exact. accepted_initialises (ensembles/weights/first picks) is only checked for the valid continuation of the real runs of the restart route (py/sysharness.py), not for every accepted configuration. Restart route: 'before sampling starts' is observed at setup_config (infretis.bin.internalrun / infretisrun hand whatever it returns straight to the scheduler; a None return ends the program), a finished run (cstep == steps) or a missing stored path makes setup_config return None before any check - modelled (setup_from = None), no sampling, not counted as a rejection; the stub-written restart files carry an empty frac table and a fresh rng state, the real-run ones are exactly what the program left. Observation outside the property's list: quantis together with lambda_minus_one = 0.0 is accepted (0.0 is falsy in 'quantis and lambda_minus_one'); modelled faithfully, not reported.",
     "design_ref": "4/C18",
 }
 LEVEL = "proof"
@@ -777,8 +781,8 @@ class Tally:
         self.best = {}
         self.n = {}
 
-    def add(self, key, what, payload, found):
-        size = len(json.dumps(payload["config"], default=str))
+    def add(self, key, what, payload, found, rank=0):
+        size = rank + len(json.dumps(payload["config"], default=str))
         self.n[key] = self.n.get(key, 0) + 1
         if key not in self.best or size < self.best[key][0]:
             self.best[key] = (size, what, payload, found)
@@ -897,9 +901,11 @@ def run(ctx):
                 tally.add(("prop-restart", route != "fresh", re.sub(r"\d+", "#", why[0]), oc),
                           f"C18 fails on the implementation: a restart file written by the program at step {cur['cstep']}, then edited "
                           f"({it['label']}; steps = {it['edited']['simulation']['steps']}) into a configuration with {', '.join(why)} and {how}, is "
-                          + (f"accepted by setup_config (sampling would go on from step {cur['cstep']})" if oc == "OK" else f"met with {oc[6:]}")
+                          + ("accepted by setup_config (sampling would " + ("start" if route == "fresh" else f"go on from step {cur['cstep']}") + ")" if oc == "OK" else f"met with {oc[6:]}")
                           + " instead of TOMLConfigError",
-                          dict(payload, expected="TOMLConfigError"), True)
+                          dict(payload, expected="TOMLConfigError"), True,
+                          # witness: a single edit breaking a single clause, on a real run's file, if there is one
+                          rank=10 ** 7 * (len(why) - 1) + 10 ** 6 * (it["cls"] == "overlay") + 10 ** 5 * (it["base_kind"] != "real-run"))
                 rr["disagreements"] += outcome_class(m_res) != oc
                 continue
             if outcome_class(m_res) != oc:
@@ -1099,19 +1105,25 @@ def run(ctx):
         "block C = every strictly increasing list with the product of workers x moves x caps x lambda_minus_one x quantis x engines "
         "(full product; thorough adds caps 2.5/3.5, lambda_minus_one -0.5/0.5/2, quantis absent, and block D = all lists up to length 5 x workers x caps x lambda_minus_one with 4 random move lists each); random engine lists/tables (gromacs input_path clashes, missing class/input_path, undefined names); "
         f"{nsetup} random input files through the real setup_config (TOML in a scratch directory), restart round trip (real write_toml, two re-reads) on every 2nd accepted one. "
+        f"Restart route: {stats['restart_route']['stub_written_files']} restart files written by the real write_toml (from every other accepted one of these, at a random step) "
+        f"and {stats['restart_route']['real_runs']} left behind by real runs on the lattice engine, each edited in every position of every class of the property's list, "
+        "harmlessly, and by random replacement of all validated fields, then handed to the real setup_config as restart.toml / as infretis.toml + equal "
+        "restart.toml / without [current]; plus a finished run and a missing stored path (no answer) per file. "
         "A case is distinct by its request line (= the whole configuration); every case is non-trivial (it is a configuration run through the real validator)")
     ctx.cov["correspondence"] = stats
     ctx.cov["trusted_base"] += [
         "extraction: ExtrOcamlBasic only; ocaml/util.ml + ocaml/c18_driver.ml",
         "py/checks/c18.py generators, encoder (dict -> model request), python oracle (cross-checked against validb on every case)",
-        "tomli / tomli_w (restart round trip)",
+        "tomli / tomli_w (restart round trip, edited restart files)",
+        "py/sysharness.py + py/plugins/engines.py (real runs leaving restart files; in-process runner)",
     ]
     ctx.assumptions += [
         "required keys present and well-typed (interfaces: list of numbers, workers: int, shooting_moves: list of str)",
         "numbers are ints or dyadic floats (exact comparisons); no NaN",
         "non-gromacs engine classes are lumped (the gromacs check only ever compares against a gromacs table)",
         "'no room' = interface_cap <= interfaces[max(i-1,0)] for an ensemble i < n_ens whose move is 'wf'",
-        "accepted_initialises not checked here (system harness pending)",
+        "accepted_initialises only for the plain continuation of the real runs of the restart route",
+        "restart route: rejection is observed at setup_config (its return value goes straight to the scheduler); a finished run or a missing stored path ends in None before any check",
     ]
 
 
@@ -1140,8 +1152,35 @@ def replay(doc):
         parts = r.run([encode(cfg, ("current",))])[0].split(" ")
         print(f"implementation now: {real}; model: {parts[2]}; model says valid after defaults: {parts[3]}")
         bad = parts[3] != "1" and outcome_class(real) != "CE"
+    elif mode == "restart_edit":
+        # cfg = the edited restart file; the stored paths it refers to are recreated as stubs
+        d = common.scratch_dir("infv_c18_")
+        cwd = os.getcwd()
+        route = rp.get("route", "restart")
+        try:
+            os.chdir(d)
+            touch_active_paths(cfg, d)
+            if not rp.get("paths_present", True):
+                os.remove(os.path.join(d, cfg["simulation"].get("load_dir", "trajs"), str(cfg["current"]["active"][-1]), "traj.txt"))
+            real, out = real_setup_route(cfg, route, d)
+        finally:
+            os.chdir(cwd)
+            common.rmtree(d)
+        why = invalid_reasons(documented_defaults(slim(cfg)))
+        r = common.Runner("c18")
+        model = r.run([setup_request(cfg, route, rp.get("paths_present", True))])[0].split(" ")[0]
+        print(f"edit: {rp.get('edit')}; route: {route}; implementation now: {real}; model (setup_from): {model}; invalid because: {why}")
+        bad = bool(why) and outcome_class(real) not in ("CE", "NONE")
+    elif mode == "restart_real_run":
+        import sysharness as H
+        tag, res = H.run_many(real_run_restart_cases, [rp["case"]], jobs=1, timeout=300)[0]
+        if tag != "ok":
+            print("real run failed in the harness:", str(res)[-1500:])
+            return 1
+        print("real run:", {k: res["info"][k] for k in ("status", "cstep", "locked", "continuation")})
+        bad = res["info"]["continuation"] != "ok"
     else:
-        print("nothing to re-run for this replay (proof obligation / restart case)")
+        print("nothing to re-run for this replay (proof obligation / restart fixed point)")
         return 0
     print("property still violated on this input" if bad else "property holds on this input now")
     return 1 if bad else 0
